@@ -74,12 +74,3 @@ pub fn fmt_u64(_v: &u64, _f: &mut std::fmt::Formatter<'_>) -> std::fmt::Result {
 pub fn fmt_i64(_v: &i64, _f: &mut std::fmt::Formatter<'_>) -> std::fmt::Result {
     Ok(())
 }
-
-/// `CoreError::name()` (the variant name rendered into an anchor `Error`) is empty.
-pub fn core_error_name(_e: &gmsol_store::CoreError) -> String {
-    String::new()
-}
-/// `Display` of a `CoreError` prints nothing (error messages are never the subject).
-pub fn fmt_core_error(_e: &gmsol_store::CoreError, _f: &mut std::fmt::Formatter<'_>) -> std::fmt::Result {
-    Ok(())
-}
